@@ -105,28 +105,25 @@ def resolvePath (stripTrailingSlash : Bool) (path : Str) : Str :=
 /-- Python's `$` (no MULTILINE): at the end, or before a final newline -/
 def atDollar (s : Str) : Bool := s.isEmpty || s == ['\n']
 
+/-- `s` starts with the character `ch`: what follows it -/
+def afterChar (ch : Char) : Str → Option Str
+  | [] => none
+  | c :: e => if c = ch then some e else none
+
+/-- `/?$` (greedy `/?`) at the head of `r`: what follows the optional slash -/
+def ampEnd (r : Str) : Option Str :=
+  match afterChar '/' r with
+  | some e => if atDollar e then some e else if atDollar r then some r else none
+  | none => if atDollar r then some r else none
+
 /-- `AMP_SUFFIXES_RE = (?:\.amp(?=\.html$)|\.amp/?$|(?<=/)amp/?$)` (re.I) at the head of `s`,
 `prevSlash` = the character before is `/`: what follows the match -/
 def ampSuffixHere (prevSlash : Bool) (s : Str) : Option Str :=
   let alt12 : Option Str :=
-    match matchLit ".amp".toList s with
-    | none => none
-    | some r =>
-      -- `\.amp(?=\.html$)`
-      if (match matchLit ".html".toList r with | some e => atDollar e | none => false) then some r
-      -- `\.amp/?$`, greedy `/?`
-      else if (match r with | '/' :: e => atDollar e | _ => false) then some (r.drop 1)
-      else if atDollar r then some r
-      else none
-  alt12.or <|
-    if prevSlash then
-      match matchLit "amp".toList s with
-      | none => none
-      | some r =>
-        if (match r with | '/' :: e => atDollar e | _ => false) then some (r.drop 1)
-        else if atDollar r then some r
-        else none
-    else none
+    (matchLit ".amp".toList s).bind fun r =>
+      -- `\.amp(?=\.html$)`, else `\.amp/?$`
+      if ((matchLit ".html".toList r).map atDollar).getD false then some r else ampEnd r
+  alt12.or (if prevSlash then (matchLit "amp".toList s).bind ampEnd else none)
 
 /-- `AMP_SUFFIXES_RE.sub("", path)`: leftmost non-overlapping matches removed (no alternative
 matches the empty string).  `prevSlash` = the previous character of the subject is `/`,
@@ -199,9 +196,7 @@ def shouldStripQueryItem (normalizeAmp : Bool) (qf : QueryItemFilter)
       match (if normalizeAmp then comboLookup Gen.Normalize.ampQueryCombos key else none) with
       | some vs => valueIn vs item.2
       | none =>
-        if (match df with
-            | some keys => keys.any (fun k => k.toList == key)
-            | none => false) then true
+        if (match df with | some keys => keys.any (fun k => k.toList == key) | none => false) then true
         else
           match qf with
           | .lang => Gen.Normalize.langQueryKeys.any (fun k => k.toList == key)
@@ -262,21 +257,20 @@ def normFragment (sf : StripFragment) (f : Str) : Str :=
 
 /-! ## the hostname -/
 
+/-- `\d` (ASCII) at the head of `r`: what follows it -/
+def afterDigit : Str → Option Str
+  | [] => none
+  | d :: e => if isAsciiDigit d then some e else none
+
 /-- `(?:www\d?|mobile|amp|m)\.` (re.I; `amp` only in the AMP variant) at the head of `s`:
 what follows the match.  `www\d?\.`: with a digit after `www` the dot must follow the digit,
 without one it must follow `www` — backtracking never finds a second way. -/
 def irrelevantLabelHere (amp : Bool) (s : Str) : Option Str :=
-  let dot (r : Str) : Option Str := match r with | '.' :: e => some e | _ => none
   let www : Option Str :=
-    match matchLit "www".toList s with
-    | none => none
-    | some r =>
-      match r with
-      | d :: r' => if isAsciiDigit d then (dot r').or (dot r) else dot r
-      | [] => none
-  www.or <| ((matchLit "mobile".toList s).bind dot).or <|
-    (if amp then (matchLit "amp".toList s).bind dot else none).or <|
-    (matchLit "m".toList s).bind dot
+    (matchLit "www".toList s).bind fun r => ((afterDigit r).bind (afterChar '.')).or (afterChar '.' r)
+  www.or <| ((matchLit "mobile".toList s).bind (afterChar '.')).or <|
+    (if amp then (matchLit "amp".toList s).bind (afterChar '.') else none).or <|
+    (matchLit "m".toList s).bind (afterChar '.')
 
 /-- `IRRELEVANT_SUBDOMAIN(_AMP)_RE.sub("", hostname)` with the pattern
 `(?:^|(?<=\.))(?:www\d?|mobile|amp|m)\.`: `boundary` = we are at the start of the string or
